@@ -1092,6 +1092,14 @@ bool Process::Arguments::read(int& character, String& argument)
                   return true;
                 }
               }
+              if(end)
+              { // the option does not take an argument
+                character = '?';
+                usize len = String::length(arg);
+                argument.attach(argName - 2, argLen + 3 + len);
+                arg += len;
+                return true;
+              }
               argument.clear();
               return true;
             }
